@@ -12,6 +12,39 @@ def nontriv_iv(l):
 FIX_COMPONENT = {"harness": "h_fix", "quick": 64000, "thorough": 1600000, "shards": 16,
                  "nontrivial": lambda l: bool(__import__("re").search(r"\(wto[^=]*\(\d+", l))}
 
+# ---- generic domain-history harness (mechanism R): one binary per shipped domain -------------
+DOMAINS = {  # VDOM id -> name (see harness/h_dom.cpp)
+    1: "intervals", 2: "constants", 9: "dis-intervals", 13: "fixed-tvpi", 14: "flat-bool-intervals",
+    15: "flat-bool-sparse-dbm", 18: "array-smashing-sdbm", 19: "array-adaptive-intervals",
+    20: "generic-wrapper-sdbm", 21: "generic-wrapper-intervals", 22: "split-dbm-bignum",
+    25: "sparse-dbm-int64", 26: "split-dbm-int64", 6: "sparse-dbm-safe", 7: "split-dbm-safe", 8: "split-oct-safe",
+}
+
+def dom_components(tag, quick, thorough, ids=None):
+    comps = []
+    for d in (ids or sorted(DOMAINS)):
+        comps.append({
+            "harness": f"h_dom_{d}", "source": "h_dom", "defines": [f"-DVDOM={d}"],
+            "quick": quick, "thorough": thorough, "shards": 1 if quick <= 1500 else 2,
+            "corpus": "h_dom",
+            "nontrivial": lambda l: "(assume" in l and ("(join" in l or "(widen" in l or "(meet" in l),
+            # each property only counts the findings carrying its tag
+            "accept": (lambda tag: (lambda verdict, req, msg: tag in msg or verdict == "DRIFT"))(tag),
+        })
+    return comps
+
+DOM_RULE = ("operation histories (6-34 ops quick, up to 66 thorough, after a seeding phase) over a pool of 4 abstract values and 5 integer variables: "
+            "assign / arith / bitwise / assume (in-language and general linear constraints, strict, disequations, non-unit coefficients) / select / forget / project / rename / expand / "
+            "join / meet / widen / narrow / in-place join, meet / copy / normalize / minimize; replayed by the driver on <=40 concrete witness states per value "
+            "(constants of the history and neighbours); after every op the value's is_bottom, at(v) for all v and every exported linear constraint are checked against all witnesses; "
+            "non-trivial = the history has an assume and a lattice operation; distinct = distinct request lines")
+DOM_ASSUME = [
+    "concrete semantics on mathematical integers (DESIGN.md §2.3): sdiv/srem truncate, division by zero has no successor, udiv/urem/lshr only on non-negative operands, shifts 0..4096",
+    "domains that need external libraries (boxes/LDD, apron, elina, pplite) are compiled out in this sandbox and not covered",
+    "int64-weight DBM instantiations get constants below 10^5 (documented unchecked arithmetic); SafeInt64 / bignum instantiations get large constants",
+    "witness sets are samples of the collecting semantics: a violation is a concrete failing input, absence of violation is not a proof for the unmodelled domains",
+]
+
 PROPS = {
     "C08": {
         "level": "proof",
@@ -36,5 +69,55 @@ PROPS = {
             "concrete semantics of an assumption map: a state entering block b survives iff it is in asm(b)",
         ],
         "trusted_base": COMMON_TB + ["model: CrabModel/Fix/Interleaved.lean (hand written transcription of wto_iterator, tied by exact table equality on every generated CFG)"],
+    },
+    "C03": {
+        "level": "proof",
+        "lean_modules": ["CrabProofs.Props.C08", "CrabProofs.Props.C03"],
+        "components": dom_components("[C03]", 900, 12000),
+        "rule": DOM_RULE, "assumptions": DOM_ASSUME,
+        "trusted_base": COMMON_TB + ["driver concrete semantics: lean/Driver/DomH.lean (definitions of the witness replay and of membership)"],
+    },
+    "C04": {
+        "level": "proof",
+        "lean_modules": ["CrabProofs.Props.C04"],
+        "components": dom_components("[C04]", 700, 10000),
+        "rule": DOM_RULE + "; C04 adds: all ordered pairs of the final pool for <=, x<=x, bot<=x, x<=top, is_bottom(bottom), is_top(top), is_top/is_bottom after set_to_*",
+        "assumptions": DOM_ASSUME,
+        "trusted_base": COMMON_TB + ["driver concrete semantics: lean/Driver/DomH.lean"],
+    },
+    "C16": {
+        "level": "proof",
+        "lean_modules": ["CrabProofs.Props.C16"],
+        "components": dom_components("[C16]", 700, 10000),
+        "rule": DOM_RULE + "; C16: after every operation on one value the full dump (is_bottom, is_top, at(v), constraints) of every other pool value must be unchanged; copies are made by the copy constructor and copy assignment",
+        "assumptions": DOM_ASSUME,
+        "trusted_base": COMMON_TB,
+    },
+    "C01": {
+        "level": "proof",
+        "lean_modules": ["CrabProofs.Props.C01Engine"],
+        "components": [FIX_COMPONENT],
+        "rule": PROPS_C06_RULE if False else "see C06 (same iterator harness): random CFGs x relations x start blocks x assumption maps x delay/descending x widening/narrowing modes; every table entry of the real iterator must contain the Kleene least solution",
+        "assumptions": ["engine level only so far: the statement->operation mapping of intra_abs_transformer and the shipped domains enter through the Sem contract (domain operations are exercised by the C03 history harness)"],
+        "trusted_base": COMMON_TB + ["model: CrabModel/Fix/Interleaved.lean; semantics: CrabModel/Fix/Semantics.lean"],
+    },
+    "C05": {
+        "level": "proof",
+        "lean_modules": ["CrabProofs.Props.C05"],
+        "components": [dict(FIX_COMPONENT, timeout=600)],
+        "rule": "same iterator harness as C06; every run is executed under a wall-clock watchdog; the model needs finite fuel on every generated CFG",
+        "assumptions": ["widening chain condition of each shipped domain is not yet proved (interval widening proof pending); analysis-level termination is proved for every value type satisfying WellFounded (WidenStep)"],
+        "trusted_base": COMMON_TB + ["model: CrabModel/Fix/Interleaved.lean"],
+    },
+    "C13": {
+        "level": "proof",
+        "lean_modules": ["CrabProofs.Props.C13"],
+        "components": [{"harness": "h_wrap", "quick": 400000, "thorough": 8000000, "shards": 16,
+                        "nontrivial": lambda l: True,
+                        # shift amounts >= 64 are undefined behaviour in C++ (edge stream, reported separately)
+                        "accept": lambda verdict, req, msg: "[C++ UB]" not in msg}],
+        "rule": "all widths 1..64 (biased to 1,2,7,8,31,32,33,63,64) x operands biased to 0,1,2^(w-1)-1,2^(w-1),2^w-1,random x every wrapint operation; each answer compared with the model and with BitVec w directly; distinct = distinct request lines",
+        "assumptions": ["shift amounts >= 64 execute an undefined C++ shift: compared on a separate edge stream and not counted as violations", "construction from a big integer outside int64 raises CRAB_ERROR (documented limitation): skipped"],
+        "trusted_base": COMMON_TB + ["model: CrabModel/Num/WrapInt.lean"],
     },
 }
